@@ -206,7 +206,7 @@ def run(prog, rep, tier):
                 o = origins(body, [recv.place[0]], through_calls=False)
                 if any(f[-1] == 'inner' and f[0] == 'self' for f in o.fields):
                     transfers.append((body, b))
-    rep.floor('R07.4', len(transfers), 3, 'byte transfers of EncryptionLayerWriter to its inner writer')
+    rep.floor('R07.4', len(transfers), 1, 'byte transfers of EncryptionLayerWriter to its inner writer')
     for body, b in transfers:
         rep.fn(body)
         t = b.term
